@@ -196,6 +196,7 @@ func main() {
 	var jobsEv []map[string]any
 	exit := 0
 	totalPaths, totalQueries, totalUnsat, totalSat, totalUnknown, inconclusive := 0, 0, 0, 0, 0, 0
+	totalNonTrivial := 0
 	var totalSteps int64
 	var totalDec int64
 	var solverTime time.Duration
@@ -239,6 +240,12 @@ func main() {
 			fmt.Printf("   inconclusive x%d: %s\n", c, m)
 		}
 		totalPaths += res.Paths
+		totalNonTrivial += res.NonTrivial
+		for _, sm := range res.Samples {
+			if len(samples) < 10 {
+				samples = append(samples, sm)
+			}
+		}
 		totalSteps += res.Steps
 		totalDec += res.Decisions
 		totalQueries += res.Queries
@@ -398,7 +405,7 @@ func main() {
 		}
 		je := map[string]any{
 			"job": job.Name, "entry": job.Pkg + "." + job.Entry, "bound": job.Bound, "n": job.N, "step_budget_per_path": job.Budget,
-			"paths": res.Paths, "path_ends": res.EndKinds, "ssa_steps": res.Steps, "max_ssa_steps_on_a_completed_path": res.MaxSteps, "decisions": res.Decisions,
+			"paths": res.Paths, "path_ends": res.EndKinds, "ssa_steps": res.Steps, "max_ssa_steps_on_a_completed_path": res.MaxSteps, "nontrivial_paths": res.NonTrivial, "decisions": res.Decisions,
 			"branch_conditions_folded_by_facts": res.Folded,
 			"solver_queries": res.Queries, "sat": res.Sat, "unsat": res.Unsat, "unknown": res.Unknown,
 			"solver_time_s": res.SolverTime.Seconds(), "wall_s": res.Wall.Seconds(),
@@ -406,9 +413,7 @@ func main() {
 			"counterexample_classes": len(order), "exhaustive_within_bound": !res.Truncated && res.Inconclusive() == 0,
 		}
 		jobsEv = append(jobsEv, je)
-		if len(samples) < 12 {
-			samples = append(samples, map[string]any{"job": job.Name, "bound": job.Bound, "paths": res.Paths, "asserts": res.Asserts})
-		}
+
 	}
 	for _, vp := range vacuityProblems {
 		fmt.Println("VACUITY:", vp)
@@ -452,8 +457,8 @@ func main() {
 			"transitions":                   int(totalDec),
 			"traces_validated_against_impl": replayed + tvProgs,
 			"evaluations":                   totalPaths,
-			"distinct_nontrivial":           totalPaths - 0,
-			"rule":                          "one evaluation = one feasible path of the real code from the harness entry (distinct decision vectors over the symbolic inputs; every path is distinct by construction). states = paths explored, transitions = solver-decided branch decisions along them.",
+			"distinct_nontrivial":           totalNonTrivial,
+			"rule":                          "one evaluation = one explored path of the real code from the harness entry (a distinct vector of solver-decided branch outcomes over the symbolic inputs; paths are distinct by construction). A path is non-trivial when it ran far enough to evaluate at least one of the harness's assertions or reach markers (paths cut by an unsatisfiable assumption, or ended by a crash / budget overrun before the first marker, are not counted). states = paths explored, transitions = branch decisions along them. Samples: a few explored paths written out (the solver's model for the path condition and the harness's witnesses under it), then counterexamples.",
 			"samples":                       samples,
 			"exhaustive":                    inconclusive == 0,
 			"functions_encoded":             fnList,
